@@ -171,6 +171,22 @@ def check(ctx):
     def is_sc(op):
         os_ = origins(once, op)
         return bool(os_) and all(o[0] == "agg" and sc_aggs and o[1] == sc_aggs[0][0] and o[2] == sc_aggs[0][1] for o in os_)
+    def is_id(op):
+        """the fresh entity, as itself or as the `SystemCommand(entity)` wrapping it (also read back through `*sys_command`)"""
+        if is_ent(op) or is_sc(op):
+            return True
+        os_ = origins(once, op)
+        ok_ = bool(os_)
+        for o in os_:
+            if o[0] == "agg" and sc_aggs and o[1] == sc_aggs[0][0] and o[2] == sc_aggs[0][1]:
+                continue        # `.0` of the wrapper (origins keeps the aggregate when the projection is the newtype's field)
+            if o[0] == "call":
+                t_ = once.blocks[o[1]]["term"]
+                f_ = op_fn(t_["func"])
+                if f_ and lib.tail(mir.fn_name(f_), 2) in ("Deref::deref", "SystemCommand::deref") and t_["args"] and is_sc(t_["args"][0]):
+                    continue
+            ok_ = False
+        return ok_
     nf = [(b, t) for b, t, fr in once.iter_calls() if fr and lib.tail(mir.fn_name(fr), 2) == "RevokeToken::new_from"]
     reg = [(b, t) for b, t, fr in once.iter_calls() if fr and lib.tail(mir.fn_name(fr), 1) in ("syscall_with_validation", "syscall")
            and any(op_fn(a) and lib.tail(mir.fn_name(op_fn(a)), 1) == "register_reactors" for a in t["args"])]
@@ -197,7 +213,7 @@ def check(ctx):
             if o[0] == "call":
                 t0 = once.blocks[o[1]]["term"]
                 fr0 = op_fn(t0["func"])
-                ent_ins = bool(fr0) and lib.tail(mir.fn_name(fr0), 2) in ("Commands::entity", "Commands::get_entity") and is_ent(t0["args"][1])
+                ent_ins = bool(fr0) and lib.tail(mir.fn_name(fr0), 2) in ("Commands::entity", "Commands::get_entity") and is_id(t0["args"][1])
         ctx.check(lib.tail(mir.fn_name(op_fn(once.blocks[ti[0][0]]["term"]["func"])), 1) == "try_insert", "C15.c", "once:storage-try_insert", once.loc(ti[0][0]),
                   "storage is try_inserted", "the callback storage is inserted with a panicking insert")
     ctx.check(okid and ent_ins, "C15.c", "once:one-identity", "%s:%d" % (once.file, once.line),
@@ -210,7 +226,7 @@ def check(ctx):
     # captured entity / token of the inner closure
     caps = inner_ag["ops"]
     names = lib.upvar_names(inner)
-    ent_cap = [i for i, c in enumerate(caps) if is_ent(c)]
+    ent_cap = [i for i, c in enumerate(caps) if is_id(c)]
     tok_cap = []
     for i, c in enumerate(caps):
         os_ = origins(once, c)
